@@ -73,7 +73,9 @@ func presenceTable(c *core.Ctx, p *procInfo, lit *ssa.Function) (rs rows, runs i
 		{"uint", func() absint.Value { return typedTok("uint") }, false},
 		{"time.Duration", func() absint.Value { return typedTok("int64") }, false},
 	}
-	exps := []struct{ text, key, def string }{{"a.b", "a.b", ""}, {"a.b:dflt", "a.b", "dflt"}, {"a.b:", "a.b", ""}, {"a.b:x:y", "a.b", "x:y"}, {"a.b: d ", "a.b", " d "}}
+	exps := []struct{ text, key, def string }{{"a.b", "a.b", ""}, {"a.b:dflt", "a.b", "dflt"}, {"a.b:", "a.b", ""}, {"a.b:x:y", "a.b", "x:y"}, {"a.b: d ", "a.b", " d "},
+		// the default is whatever follows the first ':' - texts that another syntax would read differently included
+		{"a.b:-1", "a.b", "-1"}, {"a.b:--v", "a.b", "--v"}, {"a.b:=x", "a.b", "=x"}, {"a.b:?e", "a.b", "?e"}, {"a.b:+y", "a.b", "+y"}}
 	for _, v := range vals {
 		for _, e := range exps {
 			var asked, recorded []string
@@ -451,7 +453,16 @@ func c16Delimiters(c *core.Ctx, r *core.Report) {
 		for _, owner := range stateTypes(p.T) {
 			st := core.StructOf(owner)
 			for i := 0; st != nil && i < st.NumFields(); i++ {
-				if helperT != nil && core.NamedOf(st.Field(i).Type()) == helperT {
+				isHelper := helperT != nil && core.NamedOf(st.Field(i).Type()) == helperT
+				if it, isIface := st.Field(i).Type().Underlying().(*types.Interface); isIface && helperT != nil && !isHelper && it.NumMethods() > 0 {
+					// a narrowed view of the helper: an interface the helper satisfies that has its substitution method
+					for k := 0; k < it.NumMethods(); k++ {
+						if it.Method(k).Name() == "ReplaceAllContent" && types.Implements(helperT, it) {
+							isHelper = true
+						}
+					}
+				}
+				if isHelper {
 					ss, _ := c.FieldAccesses(owner, st.Field(i).Name())
 					stores = append(stores, ss...)
 				}
